@@ -1,16 +1,49 @@
 /-
-  Y0.Props.C12 — printing and parsing are inverse, printing is unambiguous (work in progress).
+  Y0.Props.C12 — printing and parsing are inverse, printing is unambiguous.
+
+  Models: Y0.Model.Print (every `to_y0`, as a token printer), Y0.Model.PyParse (Python's expression grammar on
+  those tokens), Y0.Model.PyEval (evaluation of the syntax tree over the DSL's builders and operators, i.e.
+  `eval(s, {}, LOCALS)`).  `parse_y0(str(e))` is `PyEval.parseY0 (Print.expr e)`.
 -/
-import Y0.Model.PyEval
+import Y0.Lemmas.PrintExpr
 
 namespace Y0
 namespace C12
+open Print PyParse
 
-/-- placeholder while the proofs are being built: the front-door estimand round-trips in the model -/
-theorem frontdoor_roundtrip :
-    let e : Expr := .sum (.prod [.prob none [Var.plain 1] [Var.plain 2], .prob none [Var.plain 2] []]) [Var.plain 2]
-    PyEval.parseY0 (Print.expr e) = .ok e := by
-  rfl
+/-! ## 1. printing is unambiguous: the printed tokens, read with Python's operator precedence, have exactly the
+operator tree of the object -/
+
+/-- continuation form: a printed expression (in any of the three printing modes) followed by ANY continuation that
+cannot extend a `* / @` operand is read back as the object's tree, the continuation untouched -/
+theorem parse_print_ast_cont (e : Expr) (hw : wf e = true) (m : Mode) (n : Nat) (rest : List Tok)
+    (hn : 8 * (exprM m e).length + 5 ≤ n) (hr : StopFrom 3 rest) :
+    pBin n 3 (exprM m e ++ rest) = .ok (astOf e, rest) :=
+  (reads_all e hw).parses m n rest hn hr
+
+/-- **printing is unambiguous**: Python's grammar (the model of it) parses `str(e)` and the syntax tree is the
+operator tree of the object — no re-association, no operand captured by a neighbouring operator -/
+theorem parse_print_ast (e : Expr) (hw : wf e = true) : parse (Print.expr e) = .ok (astOf e) :=
+  ParsesAt.parse (((reads_all e hw).parses .full).lift_to (Nat.zero_le 3) (by omega))
+
+/-- the same for the text `Sum.to_y0` embeds (`parens=False`) and for a denominator -/
+theorem parse_print_ast_mode (e : Expr) (hw : wf e = true) (m : Mode) : parse (exprM m e) = .ok (astOf e) :=
+  ParsesAt.parse (((reads_all e hw).parses m).lift_to (Nat.zero_le 3) (by omega))
+
+/-- a printed variable is one operand of the `@` level whatever follows it (`,`, `|`, `)` …) -/
+theorem parse_print_var (v : Var) (n : Nat) (rest : List Tok) (hn : 8 * (Print.var v).length + 5 ≤ n)
+    (hr : StopFrom 3 rest) : pBin n 3 (Print.var v ++ rest) = .ok (astVar v, rest) :=
+  parses_var v n rest hn hr
+
+/-! non-vacuity: a well-formed expression with a product denominator, a fraction factor, a level-2 probability and a
+counterfactual variable; its printed form and its tree -/
+
+def sample : Expr :=
+  .prod [.sum (.frac (.prob none [Var.plain 0] [Var.plain 1]) (.prod [.prob none [Var.plain 1] [], .one])) [Var.plain 1],
+         .frac (.prob none [{ name := 2, ivs := [⟨3, true⟩, ⟨4, false⟩] }] []) (.q [Var.plain 5] [Var.plain 6])]
+
+example : wf sample = true := by decide
+example : parse (Print.expr sample) = .ok (astOf sample) := parse_print_ast sample (by decide)
 
 end C12
 end Y0
